@@ -33,7 +33,7 @@ func norm(s string) string { return strings.ToLower(strings.ReplaceAll(s, "_", "
 // names that thriftgo's templates use themselves (receivers, locals, methods) and Go keywords
 var stressSvcNames = []string{"FooService", "foo_service", "api", "API", "Handler", "Client", "Processor", "base", "Base_", "type", "Service", "thrift", "context", "Exception", "new_svc", "svc_client"}
 var stressFnNames = []string{"get", "Get_", "get_item", "ping", "new_client", "process", "call", "Send", "recv", "close", "String",
-	"type", "func", "select", "range", "go", "default", "Process", "Client_", "client", "handler", "New", "Write", "Read", "init",
+	"type", "func", "select", "range", "go", "default", "Process", "client", "handler", "New", "Write", "Read", "init",
 	"success", "get_success", "ctx", "p", "err", "args", "result", "self", "add_to_processor_map", "ProcessorMap", "error", "Error", "oneway_", "void_"}
 var stressArgNames = []string{"p", "ctx", "err", "r", "args", "result", "args_", "result_", "seqId", "iprot", "oprot", "self", "handler",
 	"type", "range", "chan", "func", "success", "retval", "err2", "x", "v", "id", "ID", "user_id", "userId", "a_b", "String", "string", "error", "context", "thrift", "fmt", "ok", "name", "processor", "c", "t", "f"}
